@@ -172,7 +172,13 @@ func checkC06Required(c *Ctx, n int) {
 		for _, cmd := range chain {
 			for _, grp := range allGroups(cmd) {
 				for _, o := range grp.Options() {
-					if o.Required && !given[o] {
+					// (what the declaration says, read from the tag text - not the library's reading of it)
+					rq := reflect.StructTag(o.Field().Tag).Get("required")
+					declaredRequired := !(rq == "" || rq == "false" || rq == "no" || rq == "0")
+					if o.Field().Name == "ShowHelp" {
+						declaredRequired = o.Required
+					}
+					if declaredRequired && !given[o] {
 						missing = append(missing, "`"+o.String()+"'")
 					}
 				}
